@@ -1586,6 +1586,18 @@ class Sim:
                 merged.setdefault(old, []).append(px)
             updated = [(tuple(np.concatenate([p[i] for p in pxs]) for i in range(len(pxs[0]))), old) for old, pxs in merged.items()]
             self.count("pt_merged_frame_entries")
+        if op.get("split_entries"):
+            # a client that forwards one entry per brush stroke: the pixels that had one old
+            # value arrive in two entries
+            split = []
+            for px, old in updated:
+                h = len(px[0]) // 2
+                if h:
+                    split += [(tuple(a[:h] for a in px), old), (tuple(a[h:] for a in px), old)]
+                else:
+                    split.append((px, old))
+            updated = split
+            self.count("pt_entries_split_per_stroke")
         tid = self.pick_track(op["track"])
         force = bool(op.get("force"))
         # classification
